@@ -135,7 +135,10 @@ def _copy_of_param(fn, l, param):
 
 
 def thorough(ctx, db, lexpr, surf):
-    from .. import arith
+    from .. import arith, selftest
+    rs = ctx.rule("CONTROLS", "positive controls: the detectors fire on the seeded fixtures crate")
+    selftest.check_panics(ctx, rs)
+    selftest.check_arith(ctx, rs)
     r = ctx.rule("R-ARITH", "every arithmetic overflow assert on the parse path is discharged by range reasoning or "
                             "listed in the reviewed table")
     arith.scan(r, lexpr, lambda f: f.path in surf, load_table("arith.json")["lexpr"])
